@@ -118,6 +118,29 @@ class Universe:
         elif k == 'chRemoveAll':
             chosen = set(id(T(u)) for u in op[3])
             self.holder_list(op[1]).remove_all(lambda t: id(t) in chosen)
+        elif k == 'badArg':
+            # a malformed argument (None / a non-task where a task is required): must be refused without touching anything
+            which, h = op[1], op[2]
+            if which == 'appendNone':
+                self.holder_list(h).append(None)
+            elif which == 'removeNone':
+                self.holder_list(h).remove(None)
+            elif which == 'insertNone':
+                self.holder_list(h).insert(0, None)
+            elif which == 'predAppendNone':
+                T(h % self.m).predecessors.append(None)
+            elif which == 'childrenInt':
+                T(h % self.m).children = 5
+            elif which == 'predsInt':
+                T(h % self.m).predecessors = 5
+            elif which == 'wbsRemoveNone':
+                self.wbs[0].remove(None)
+            elif which == 'sortInt':
+                self.holder_list(h).sort(5)
+            elif which == 'floordivInt':
+                T(h % self.m) // 5
+            else:
+                raise common.MachineryError(f'unknown badArg {which}')
         else:
             raise common.MachineryError(f'unknown op {k}')
 
@@ -141,7 +164,13 @@ class Universe:
             op[2] = [self.u(t) for t in self.holder_list(op[1]) if self.u(t) in chosen]
         elif k == 'chSort':
             key = op[4]
-            op[2] = [[self.u(t), getattr(t, key)] for t in self.holder_list(op[1])]
+            if isinstance(key, list):
+                # several attributes: the code sorts by the string '<a>-<b>'; the model gets the rank of that string (same order)
+                strs = {id(t): '-'.join(str(getattr(t, kk)) for kk in key) for t in self.holder_list(op[1])}
+                rank = {v: i for i, v in enumerate(sorted(set(strs.values())))}
+                op[2] = [[self.u(t), rank[strs[id(t)]]] for t in self.holder_list(op[1])]
+            else:
+                op[2] = [[self.u(t), getattr(t, key)] for t in self.holder_list(op[1])]
         return op
 
 
@@ -164,6 +193,9 @@ def model_op(op):
         return op[:3]
     if k in ('wbsRemoveAll', 'chRemoveAll'):
         return op[:3]
+    if k == 'badArg':
+        # for the model: a call that is refused with RuntimeError in every state (a task as its own parent)
+        return ['setParent', 0, 0]
     return op
 
 
@@ -187,6 +219,9 @@ def rand_op(u, rnd):
         return [u.u(c) for c in u.holder_list(h)]
 
     stale = 'stale' if rnd.random() < 0.3 else 'fresh'
+    if rnd.random() < 0.02:
+        return ['badArg', rnd.choice(['appendNone', 'removeNone', 'insertNone', 'predAppendNone', 'childrenInt', 'predsInt', 'wbsRemoveNone',
+                                      'sortInt', 'floordivInt']), holder()]
     k = rnd.randrange(27)
     if k >= 25:
         # directed: put a detached, parentless task under a WBS root (the "can be attached to another WBS" clause)
@@ -232,7 +267,7 @@ def rand_op(u, rnd):
                 b = rnd.choice(ks)
         return ['chMove', h, ts, b, a, single, stale]
     if k == 6:
-        return ['chSort', holder(), None, rnd.random() < 0.5, rnd.choice(['prio', 'id', 'prio']), stale]
+        return ['chSort', holder(), None, rnd.random() < 0.5, rnd.choice(['prio', 'id', 'prio', ['prio', 'id'], ['id']]), stale]
     if k == 7:
         h = holder()
         ks = kids(h)
